@@ -907,6 +907,8 @@ fn specs_for(prop: &'static str, tier: Tier) -> Vec<SpecImpl> {
                 v.push(mk(cfg(2, &[Uds], 1), Bounds { connects: 2, cmds: vec![Ev::Stop(true), Ev::Signal(2), Ev::Signal(15)], max_cmds: 1, advances: vec![1000], max_advances: 4, ..Default::default() }));
                 // the accept loop exits (closing the workers' channels) before the workers are told to stop
                 v.push(mk(cfg(1, &[Uds], 2), Bounds { connects: 1, cmds: vec![Ev::Stop(true)], max_cmds: 1, advances: vec![1000], max_advances: 3, nested: 2, ..Default::default() }));
+                // the worker is told to stop while the accept thread has sent a connection but not counted it yet
+                v.push(mk(cfg(1, &[Uds], 2), Bounds { connects: 1, cmds: vec![Ev::Stop(true)], max_cmds: 1, advances: vec![1000], max_advances: 3, nested: 3, ..Default::default() }));
                 // stop racing new connections and late availability notifications
                 v.push(mk(cfg(2, &[Uds], 1), Bounds { connects: 3, cmds: vec![Ev::Stop(true)], max_cmds: 1, advances: vec![1000], max_advances: 1, ..Default::default() }));
                 v.push(mk(cfg(1, &[Tcp], 1), Bounds { connects: 2, cmds: vec![Ev::Pause, Ev::Stop(true), Ev::Stop(false)], max_cmds: 2, advances: vec![1000], max_advances: 3, ..Default::default() }));
